@@ -18,6 +18,7 @@
                       error object occurs ("the expression failed to evaluate, wherever it sits");
      [names_loc L o]  o is a PermFail whose message contains L or whose location is L. *)
 From Koreo Require Import Json Outcome ErrScan Predicates ErrScan_proofs.
+From Koreo Require Import ErrScan_gen ErrScan_sync.
 Local Open Scope list_scope.
 
 (* the recursive scan finds an error object iff there is one — "wherever it sits in a
@@ -114,6 +115,20 @@ Theorem C10_rf_no_leak_partial : forall (call : Type) krm f loc r t (calls : lis
      exists o, r = Some (UOut o) /\ names_loc (sloc loc (part s)) o).
 Proof. exact rf_no_leak_partial. Qed.
 
+(* The tie to the code, as a proof obligation: the model of check_for_celevalerror ([scan]: true = a
+   PermFail is returned), which every theorem above uses to say "an error object anywhere in the value is
+   found", is equal to the transcription of that function regenerated from src/koreo/cel/evaluation.py
+   on every run (gen/ErrScan_gen.v, harness/translate_errscan.py): for every value there is a fuel from
+   which on the transcription answers exactly [scan v], and whenever it answers at all it answers
+   [scan v].  A container the scan no longer descends into, keys no longer scanned or an early exit
+   that skips later elements breaks this. *)
+Theorem C10_scan_is_transcription_of_code : forall v,
+  exists n0, forall n, (n0 <= n)%nat -> scan_gen n v = Some (scan v).
+Proof. exact scan_is_transcription. Qed.
+
+Theorem C10_scan_transcription_sound : forall n v b, scan_gen n v = Some b -> b = scan v.
+Proof. exact scan_gen_sound. Qed.
+
 (* non-vacuity: an error buried in a list inside a map inside a list is found; a function whose
    locals hold such a value PermFails at spec.locals although the return expression would
    succeed; a clean function returns an error-free merge *)
@@ -151,3 +166,5 @@ Print Assumptions C10_evaluate_predicates_from_clean.
 Print Assumptions C10_vf_no_leak.
 Print Assumptions C10_no_exception_escapes.
 Print Assumptions C10_rf_no_leak_partial.
+Print Assumptions C10_scan_is_transcription_of_code.
+Print Assumptions C10_scan_transcription_sound.
